@@ -174,6 +174,7 @@ func runC03(r *ev.Run) {
 
 	c03DirectedStaleExpunge(r)
 	c03DirectedCrossMailbox(r)
+	c03DirectedArrivalDeleted(r)
 
 	sizes := []int{2, 501, 1001}
 	if r.Thorough() {
